@@ -3,11 +3,14 @@
    of [spec_eq] / [spec_cmp] on [abs a], [abs b] (any capacities, any layouts:
    the three-way segment alignment never goes out of bounds), hashing feeds the
    length then the elements of [abs a], Debug formats the elements of [abs a].
+   Debug of an Iter / IterMut / Drain / IntoIter, after any script on it,
+   formats exactly the elements it would still yield, front to back, and
+   consumes nothing (the Drain / IntoIter then destroys them as usual).
    This file only pins statements; proofs are in coq/proofs/. *)
 From CB Require Import Spec Unstable.
 From Coq Require Import Permutation.
 From CBP Require Import Step RefDefs C02Lemmas Arith AbsLemmas AllOps FaultDefs FaultPrims FaultDropA FaultDropB FaultUser
-     Iters DrainP ExtendIo CmpHash Ctors PhysMoves UnstableEq Access Views RefTruncate FillExtend FaultFrame SpecCorollaries.
+     Iters DrainP ExtendIo CmpHash Ctors PhysMoves MoreOps UnstableEq Access Views RefTruncate FillExtend FaultFrame SpecCorollaries.
 
 
 Theorem C13_eq :
@@ -39,3 +42,23 @@ Theorem C13_debug :
   refines_op ODebug.
 Proof. exact (exec_refines (ODebug)). Qed.
 Print Assumptions C13_debug.
+
+Theorem C13_iter_debug :
+  forall sb eb pre, refines_op (OIterDebug sb eb pre).
+Proof. exact (fun sb eb pre => exec_refines (OIterDebug sb eb pre)). Qed.
+Print Assumptions C13_iter_debug.
+
+Theorem C13_iter_mut_debug :
+  forall sb eb pre, refines_op (OIterMutDebug sb eb pre).
+Proof. exact (fun sb eb pre => exec_refines (OIterMutDebug sb eb pre)). Qed.
+Print Assumptions C13_iter_mut_debug.
+
+Theorem C13_drain_debug :
+  forall sb eb pre, refines_op (ODrainDebug sb eb pre).
+Proof. exact (fun sb eb pre => exec_refines (ODrainDebug sb eb pre)). Qed.
+Print Assumptions C13_drain_debug.
+
+Theorem C13_into_iter_debug :
+  forall pre, refines_op (OIntoIterDebug pre).
+Proof. exact (fun pre => exec_refines (OIntoIterDebug pre)). Qed.
+Print Assumptions C13_into_iter_debug.
